@@ -396,6 +396,17 @@ def oracles (st : WorldSt) (pd : Pending) (post : Bool := false) : List (String 
          && (match pd.op with | .pair _ _ _ (.receive f _ _) => who ≠ f | .router _ _ (.receive f _ _) => who ≠ f | _ => true)
          && d < 0 then
         out := out ++ [("C07", s!"balance of the designated receiver {who} in {showAsset a} fell by {-d}")]
+    -- C07: the LP token's own address takes part in a provision / withdrawal only as holder of the reserved LP unit:
+    -- its balance of any *other* asset must not move (unless it is the designated receiver)
+    let lpOp := match pd.op with
+      | .tokSend _ _ _ _ .withdraw => true
+      | .pair _ _ _ (.provide ..) => true
+      | .pair _ _ _ (.receive _ _ .withdraw) => true
+      | _ => false
+    if lpOp then
+      for (a, who, _) in changedBal do
+        if (st.lpFirst.any fun x => x.2 = who) && a ≠ .token who && !rcvs.contains who && who ≠ actor then
+          out := out ++ [("C07", s!"balance of the LP token contract {who} in {showAsset a} changed")]
     -- balances are observed for the first eight pairs only: a route that reaches a later pair through the registry moves
     -- coins into an unobserved account, so the sums say nothing then
     let isRouteOp := match pd.op with
@@ -487,7 +498,8 @@ def oracles (st : WorldSt) (pd : Pending) (post : Bool := false) : List (String 
           -- C12: the quote taken immediately before equals the execution
           match st.lastSim with
            | some (qp, qo, qa, qres) =>
-             if qp = p && qo = offer && qa = amt && (funds.filter (fun c => Asset.native c.1 ≠ offer)).isEmpty then
+             -- "the same offer" is the offer the swap reports it priced
+             if qp = p && qo = offer && qa = o && (funds.filter (fun c => Asset.native c.1 ≠ offer)).isEmpty then
                out := out ++ fails "C12" s!"simulation ({qres}) differs from the executed swap" (qres = s!"ok {n} {s} {k}")
            | none => pure ()
       | none => pure ()
